@@ -610,6 +610,9 @@ def _scale_diffcov_1d(data: np.ndarray) -> float:
     """Calculate the Difference Covariance scale of a 1D array."""
     diff = np.diff(data)
     cov = np.cov(diff[:-1], diff[1:])
+    # a lag covariance that cancels to rounding error is zero, not a scale of ~1e-8
+    if np.abs(cov[0, 1]) <= 1e-12 * np.sqrt(cov[0, 0] * cov[1, 1]):
+        return 0.0
     return np.sqrt(np.abs(cov[0, 1]))
 
 
